@@ -490,6 +490,10 @@ def patch_rank(ctx, lib, gl, names=None, kinds=("mass", "thermal-K", "elastic-K"
 
 
 def run(ctx):
+    from . import c14 as _c14m
+
+    # 'M carries the mass': a memoised element matrix that reads state of the simulation (rho, thickness) outside its key
+    ctx.attempt(_c14m.simu_memo_state_rule, ctx, 'R2.16')
     from ..shared import copy_out_rule as _cor
 
     # the K, C, M handed out stay symmetric / definite whatever the caller does with an earlier copy: whole copies, no shared index arrays
